@@ -389,6 +389,8 @@ enum Profile {
     WideMatrix,
     /// every CSV-special shape in one small file (k selects the style)
     CsvShapes(usize),
+    /// a key (column 0) containing U+0000 - raw (0) or written as `\\u0000` (1): refused by parse_record (`EmptySurface`, repair D5)
+    NulKey(usize),
 }
 
 fn gen_form(rng: &mut Rng, headword: &str, surface: &str, allow_empty: bool) -> String {
@@ -478,7 +480,7 @@ fn gen_world(rng: &mut Rng, profile: Profile) -> World5 {
     let idn = nl.min(nr);
     let k = rng.range(3, 7);
     let pool: Vec<char> = (0..k).map(|_| *rng.pick(PLAIN)).collect();
-    let size = match profile { Profile::Tiny | Profile::NegRight => rng.range(1, 3), Profile::CsvShapes(_) => rng.range(3, 8), Profile::Huge => 3, _ => rng.range(4, 40) };
+    let size = match profile { Profile::Tiny | Profile::NegRight | Profile::NulKey(_) => rng.range(1, 3), Profile::CsvShapes(_) => rng.range(3, 8), Profile::Huge => 3, _ => rng.range(4, 40) };
     let rich = !matches!(profile, Profile::Huge);
     let mut rows: Vec<GRow> = (0..size).map(|_| gen_row(rng, pos.len(), idn, &pool, rich)).collect();
     // at least one indexed row (the trie builder panics on an empty key set: D4, property C06)
@@ -533,6 +535,12 @@ fn gen_world(rng: &mut Rng, profile: Profile) -> World5 {
             let k = rows.len() - 1;
             rows[k].left = 0;
             rows[k].right = -1;
+        }
+        Profile::NulKey(k) => {
+            tags.push("nul-key");
+            let j = rows.len() - 1;
+            rows[j].surface = "a\u{0}b".to_string();
+            rows[j].escape = k;
         }
         Profile::Escapes => {
             tags.push("escapes");
@@ -1038,7 +1046,7 @@ the parameters of every word, LexiconSet::lookup of every source key; non-trivia
         Profile::Desc(255), Profile::Desc(256), Profile::Desc(257), Profile::Desc(0), Profile::UserRefs, Profile::UserDicForm, Profile::Escapes, Profile::Huge,
         Profile::UserRefs, Profile::UserDicForm, Profile::Escapes, Profile::UserRefs, Profile::NegRight,
         Profile::CsvShapes(1), Profile::CsvShapes(2), Profile::CsvShapes(3), Profile::CsvShapes(4), Profile::CsvShapes(5), Profile::CsvShapes(6), Profile::WideMatrix, Profile::WideMatrix,
-        Profile::CsvShapes(7), Profile::CsvShapes(8),
+        Profile::CsvShapes(7), Profile::CsvShapes(8), Profile::NulKey(0), Profile::NulKey(1),
     ];
     let n = run.opts.count;
     run.bump(&format!("variant:df={}", df_variant()));
